@@ -761,6 +761,8 @@ def user_macro(name, nargs, definer, body, default=None, give_option=False):
                       + ('[%s]' % dflt if dflt else '') + '{' + btxt + '}')
             ctx.gap()
         gw, dflt = ctx.umacs[name]
+        if name == 'um_optbare' and ctx.sep == '':
+            raise Invalid('control word directly followed by a letter')
         n = ctx.open(name, WS)     # body text may contain blanks
         ctx.w(mac)
         # arguments are rendered once into private flows, then placed as the body says
